@@ -244,3 +244,113 @@ Example C06_example_traffic :
   = (mkRes [mkMsg 2 46 []; mkMsg 2 47 [2]] Proceeds 2,
      mkPost 2 [mkMsg 2 21 [0;0;0;1]; mkMsg 2 72 []; mkMsg 2 22 [0;0;0;2]]).
 Proof. vm_compute. reflexivity. Qed.
+
+(* ---- a reader that stops reading for a while: acknowledgements WRITTEN after negotiation -------
+   "every message sent afterwards carries the negotiated version" is about when a frame is
+   written, not about when the KEEPALIVE it answers arrived.  The write loop (Negotiate.wr_step:
+   acknowledgement IDs first, then the send queue; the header is stamped with the version of the
+   moment the loop takes the message; one write at a time, which completes when the reader reads)
+   is run here on EVERY list of events — keep-alives arriving, messages handed over, assignments of
+   the version, the reader reading. *)
+
+(* once the version has settled — no later assignment changes it — and a write is under way whose
+   frame f was stamped earlier, the reader reads nothing at all, or f followed by frames that all
+   carry the settled version: f is the only frame that may still carry another one *)
+Theorem only_the_write_under_way_is_older : forall cfg evs s f, conforming cfg = true ->
+  (forall v, In (WAssign v) evs -> v = w_ver s) -> w_busy s = Some f ->
+  exists rest, w_wire (wr_run cfg evs s) = w_wire s ++ rest /\
+               (rest = [] \/ exists rest', rest = f :: rest' /\ Forall (carries (w_ver s)) rest').
+Proof. exact wr_only_write_under_way_older. Qed.
+Print Assumptions only_the_write_under_way_is_older.
+
+(* … and with no write under way (or one that already carries the settled version) every frame does *)
+Theorem frames_written_after_settling : forall cfg evs s, conforming cfg = true ->
+  (forall v, In (WAssign v) evs -> v = w_ver s) ->
+  (forall g, w_busy s = Some g -> carries (w_ver s) g) ->
+  exists rest, w_wire (wr_run cfg evs s) = w_wire s ++ rest /\ Forall (carries (w_ver s)) rest /\
+               w_ver (wr_run cfg evs s) = w_ver s.
+Proof. exact wr_settled. Qed.
+Print Assumptions frames_written_after_settling.
+
+(* d KEEPALIVEs sent by a reader that does not read, the version changing from v_then to v_now
+   meanwhile: what the reader finds when it reads again is [held]: the first acknowledgement at
+   v_then (its write began at once), the other d-1 at v_now *)
+Theorem held_acks_stamped_when_written : forall cfg v_then v_now d w,
+  wr_run cfg (repeat WKeepAlive d ++ WAssign v_now :: repeat WPeerReads d) (wr_idle v_then w)
+  = wr_idle v_now (w ++ held cfg v_then v_now d).
+Proof. exact held_is_writer_run. Qed.
+Print Assumptions held_acks_stamped_when_written.
+
+(* the negotiation function with held-back acknowledgements (k1/k2 keep-alives acknowledged at once,
+   d1/d2 sent by a reader that does not read until the client has acted on the answer that follows)
+   computes exactly what the write loop puts on the wire on the schedule of such a negotiation *)
+Theorem negotiate_kd_is_writer_run : forall cfg cmax k1 d1 k2 d2 r1 r2,
+  let s := wr_run cfg (kd_schedule cmax k1 d1 k2 d2 r1 r2) (wr_idle cmax []) in
+  let m := negotiate_kd cfg cmax k1 d1 k2 d2 r1 r2 in
+  w_wire s = n_frames (fst m) ++ snd m /\ w_ver s = n_version (fst m).
+Proof. exact negotiate_kd_is_writer_run_l. Qed.
+Print Assumptions negotiate_kd_is_writer_run.
+
+(* held-back acknowledgements change neither the outcome, nor the version settled on, nor the
+   negotiation messages (so every clause above holds with them), and without any the function is
+   negotiate_ka *)
+Theorem held_acks_do_not_disturb : forall cfg cmax k1 d1 k2 d2 r1 r2,
+  let a := fst (negotiate_kd cfg cmax k1 d1 k2 d2 r1 r2) in
+  let b := negotiate cfg cmax r1 r2 in
+  n_outcome a = n_outcome b /\ n_version a = n_version b /\ neg_frames_only (n_frames a) = n_frames b.
+Proof. exact kd_same_result. Qed.
+Print Assumptions held_acks_do_not_disturb.
+
+Theorem no_held_acks_is_session_post : forall cfg cmax k1 k2 r1 r2 evs,
+  session_kd cfg cmax k1 0 k2 0 r1 r2 evs = session_post cfg cmax k1 k2 r1 r2 evs.
+Proof. exact session_kd_no_delay. Qed.
+Print Assumptions no_held_acks_is_session_post.
+
+(* "every message sent afterwards carries the negotiated version" for a whole session — any client
+   maximum, reactions, keep-alives acknowledged at once or held back at either point, any traffic
+   afterwards: the version at the end is the negotiated one … *)
+Theorem held_session_version : forall cfg cmax k1 d1 k2 d2 r1 r2 evs, conforming cfg = true ->
+  let s := session_kd cfg cmax k1 d1 k2 d2 r1 r2 evs in
+  p_ver (snd s) = n_version (fst s) /\
+  (n_outcome (fst s) = Proceeds ->
+   exists traffic, p_out (snd s) = snd (negotiate_kd cfg cmax k1 d1 k2 d2 r1 r2) ++ traffic /\
+                   Forall (carries (n_version (fst s))) traffic).
+Proof. exact session_kd_traffic. Qed.
+Print Assumptions held_session_version.
+
+(* … and of the frames read after negotiation ended every one carries it, except — at most — the
+   FIRST, and only when that is the acknowledgement (at the configured maximum) whose write was
+   under way when the query's answer ended the negotiation (d1 <> 0) *)
+Theorem frames_after_negotiation_negotiated : forall cfg cmax k1 d1 k2 d2 r1 r2 evs, conforming cfg = true ->
+  let s := session_kd cfg cmax k1 d1 k2 d2 r1 r2 evs in
+  let v := n_version (fst s) in
+  Forall (carries v) (tl (p_out (snd s))) /\
+  (forall f, hd_error (p_out (snd s)) = Some f ->
+             carries v f \/ (f = mkMsg cmax MsgKeepAliveAck [] /\ d1 <> O)) /\
+  (d1 = O -> Forall (carries v) (p_out (snd s))).
+Proof. exact session_kd_negotiated. Qed.
+Print Assumptions frames_after_negotiation_negotiated.
+
+(* client 1.1, reader 1.0.1 only, which rejects the query as an unsupported version after having
+   sent two KEEPALIVEs without reading: the first acknowledgement (write under way) carries 1.1,
+   the second — written after the client settled on 1.0.1 — and all later traffic carry 1.0.1 *)
+Example C06_example_held_acks :
+  session_kd (mkCfg true true) V1_1 0 2 0 0 (ErrMsg 110) NoReply
+    [PKeepAlive; PRequest 2 []; PAnswer AnsSuccess; PKeepAlive; PRequest 1 [0]; PAnswer AnsSuccess]
+  = (mkRes [mkMsg 2 46 []] Proceeds 1,
+     mkPost 1 [mkMsg 2 72 []; mkMsg 1 72 []; mkMsg 1 72 []; mkMsg 1 2 []; mkMsg 1 72 []; mkMsg 1 1 [0]]).
+Proof. vm_compute. reflexivity. Qed.
+(* the same reader reached through a switch (current 1.1, maximum 1.0.1), acknowledgements held at
+   both points: SET_PROTOCOL_VERSION is written after the held acknowledgements *)
+Example C06_example_held_acks_switch :
+  session_kd (mkCfg true true) V1_1 0 2 0 2 (Resp 64 32 0) (Resp 0 0 0) [PRequest 2 []]
+  = (mkRes [mkMsg 2 46 []; mkMsg 2 72 []; mkMsg 1 72 []; mkMsg 2 47 [1]] Proceeds 1,
+     mkPost 1 [mkMsg 1 72 []; mkMsg 1 72 []; mkMsg 1 2 []]).
+Proof. vm_compute. reflexivity. Qed.
+(* the hypotheses of only_the_write_under_way_is_older are satisfiable: write loop blocked in an
+   acknowledgement stamped 1.1, one more ID queued, the version already 1.0.1 *)
+Example C06_example_write_under_way :
+  w_wire (wr_run (mkCfg true true) [WKeepAlive; WPeerReads; WSubmit 2 []; WPeerReads; WPeerReads; WPeerReads]
+            (mkWr 1 (Some (mkMsg 2 72 [])) 1 [] []))
+  = [mkMsg 2 72 []; mkMsg 1 72 []; mkMsg 1 72 []; mkMsg 1 2 []].
+Proof. vm_compute. reflexivity. Qed.
